@@ -63,6 +63,9 @@ const (
 	// hot-region (read, move peer) dereferences region.GetLeader() of a hot region
 	// that has no leader in pd's cache.
 	keyHotNilLeader = "C11/hot-region-panics-on-leaderless-read-hot-region"
+	// RegionScatterer.specialEngines is a plain map that scatterRegion reads and writes without a lock
+	// although Scatter is called concurrently.
+	keyEngineMap = "C11/scatter-engine-context-map-unsynchronised"
 
 	reps = 3
 )
